@@ -3,6 +3,7 @@ package graph
 import (
 	"context"
 	"encoding/json"
+	"example.com/probe/ref"
 
 	"github.com/99designs/gqlgen/graphql"
 	"strings"
@@ -182,4 +183,40 @@ func Harness_C02_variables() {
 		zzsym.Assert(nerr >= 1, "the failure is reported")
 		zzsym.Reach("c02.vars.rejected")
 	}
+}
+
+var c02MethodCases = []c02VarCase{
+	{`{ me { label(first: "Ada", last: "Lovelace") } }`, nil, ""},
+	{`{ me { label(last: "Lovelace", sep: "+", first: "Ada") } }`, nil, ""},
+	{`query($a: String!, $b: String!, $c: String = "/") { me { x: label(first: $a, last: $b, sep: $c) y: label(first: $b, last: $a) } }`, map[string]any{"a": "Ada", "b": "Lovelace"}, ""},
+	{`{ users { label(sep: "", last: "L", first: "F") } }`, nil, ""},
+}
+
+func Setup_C02_methodArgs() { probeSetup() }
+
+// Harness_C02_methodArgs: a field bound to a Go method of the model (not to
+// a resolver) whose parameters are declared in another order than the
+// schema's arguments: every parameter receives the coerced value of the
+// argument of its own name (literal order, schema order and method order all
+// differ), defaults included.
+func Harness_C02_methodArgs() {
+	c := c02MethodCases[zzsym.Choice("case", len(c02MethodCases))]
+	w := newWorld(0, false)
+	doc := mustLoad(c.query)
+	op := doc.Operations[0]
+	vars := map[string]any{}
+	for k, v := range c.vars {
+		vars[k] = v
+	}
+	for _, vd := range op.VariableDefinitions {
+		if _, ok := vars[vd.Variable]; !ok && vd.DefaultValue != nil {
+			dv, _ := vd.DefaultValue.Value(nil)
+			vars[vd.Variable] = dv
+		}
+	}
+	got := runOp(w, doc, op, vars)
+	want := ref.Execute(pSchema, doc, op, vars, w)
+	zzsym.Event("data", got.data)
+	zzsym.Assert(got.data == want.Data && len(got.errs) == 0, "a method-bound field passes every argument to the parameter of its name")
+	zzsym.Reach("c02.method")
 }
